@@ -231,3 +231,32 @@ def check(ctx):
             ctx.add(f"5.removed-node-clears-cache-{b.unit.split('::')[-1]}", "PAIR", ok,
                     "every node removed from the graph has its cached outputs cleared", sites=[c.where()], site_key=b.unit)
         ctx.only_callers("5.cache-on-store", f"{GS}::cache_tx_infos", [f"<{GS} as {STORAGE}>::store_transaction"], CR)
+
+    # -- published statistics follow every change of the pool contents --
+    with ctx.clause("6.stats-published-after-every-change"):
+        P6 = "fuel_core_txpool::pool::Pool"
+        US = f"{P6}::update_stats"
+        CH = (f"{P6}::update_components_and_caches_on_removal", "fuel_core_txpool::storage::Storage::remove_transaction_and_dependents_subtree",
+              "fuel_core_txpool::storage::Storage::remove_transaction", "fuel_core_txpool::storage::Storage::store_transaction")
+        n6 = 0
+        for u6 in F.find_units(f"{P6}::*", "fuel_core_txpool"):
+            if u6.q.endswith("::update_stats") or "{closure" in u6.q:
+                continue
+            b6 = u6.root
+            ch = [c for c in b6.calls if c.bb in b6.live and any(c.is_path(x) for x in CH)]
+            us = [c for c in b6.calls if c.bb in b6.live and c.is_path(US)]
+            if not ch or not us:
+                continue        # helpers that change the pool but leave publishing to their caller are covered through the callers
+            n6 += 1
+            errs6 = b6.error_blocks()
+            def starts6(c):
+                # a removal that returned None / Err changed nothing: the change starts on the ok edge when the result is tested
+                oke, _ = ctx.ok_edges(c)
+                ts = [ctx._edge_target(b6, e) for e in oke]
+                return [t for t in ts if t is not None] or ([c.target] if c.target is not None else [])
+            late = [c for c in ch if b6.path(starts6(c), b6.return_blocks(), cut_blocks=[x.bb for x in us] + list(errs6)) is not None]
+            ctx.add(f"6.{u6.q.rsplit('::', 1)[-1]}-stats-after-last-change", "PAIR", not late,
+                    f"in Pool::{u6.q.rsplit('::', 1)[-1]} every successful path from a change of the pool contents to the return passes update_stats() "
+                    "(the published count / gas / size would otherwise lag behind what the pool holds)" + (f"; not followed by update_stats: {[c.name + ' line ' + str(c.line) for c in late]}" if late else ""),
+                    sites=[c.where() for c in us], site_key=u6.q.rsplit("::", 1)[-1])
+        ctx.add("6.functions-checked", "COUNT", n6 >= 4, f"{n6} pool methods both change the contents and publish statistics", sites=[str(n6)], site_key="n")
